@@ -306,6 +306,29 @@ class _LenCase(TypeCase):
                 op = test.ops[0]
                 return {ast.Eq: n == c, ast.NotEq: n != c, ast.Gt: n > c, ast.GtE: n >= c, ast.Lt: n < c, ast.LtE: n <= c}.get(type(op))
             return None
+        if isinstance(test, ast.Compare) and len(test.ops) == 1 and isinstance(test.ops[0], (ast.In, ast.NotIn)):
+            # `pitch in table[channel]`: a non-empty stack is a stored stack, so its key is present; with no open note the key may or may
+            # not exist (a closed note leaves an empty list behind) -- unknown, both branches are followed
+            roots = getattr(self, "_table_roots", None)
+            if roots is None:
+                roots = set()
+                for a in ast.walk(self.fi.node):
+                    if isinstance(a, ast.Assign) and isinstance(a.value, ast.Name) and a.value.id == self.stack:
+                        for t in a.targets:
+                            b = t
+                            while isinstance(b, ast.Subscript):
+                                b = b.value
+                            if b is not t and isinstance(b, ast.Name):
+                                roots.add(b.id)
+                self._table_roots = roots
+            b = test.comparators[0]
+            while isinstance(b, ast.Subscript):
+                b = b.value
+            if isinstance(b, ast.Name) and b.id in roots and b is not test.comparators[0]:
+                ls = self._len_of(st)
+                if ls and min(ls) >= 1:
+                    return isinstance(test.ops[0], ast.In)
+                return None
         if isinstance(test, ast.UnaryOp) and isinstance(test.op, ast.Not) and isinstance(test.operand, ast.Name) and test.operand.id == self.stack:
             ls = self._len_of(st)
             return (next(iter(ls)) == 0) if len(ls) == 1 else None
@@ -315,6 +338,15 @@ class _LenCase(TypeCase):
         return super().truth(test, st)
 
     def stmt(self, s, st):
+        # `stack = <the stack or its table entry>[:-1]` (a copying pop) and `stack = stack[1:]`: one element fewer
+        if isinstance(s, ast.Assign) and len(s.targets) == 1 and isinstance(s.targets[0], ast.Name) and s.targets[0].id == self.stack \
+                and isinstance(s.value, ast.Subscript) and isinstance(s.value.slice, ast.Slice) and s.value.slice.step is None:
+            sl = s.value.slice
+            drop_last = sl.lower is None and isinstance(sl.upper, ast.UnaryOp) and isinstance(sl.upper.op, ast.USub) and isinstance(sl.upper.operand, ast.Constant) \
+                and sl.upper.operand.value == 1
+            drop_first = sl.upper is None and isinstance(sl.lower, ast.Constant) and sl.lower.value == 1
+            if drop_last or drop_first:
+                st.vals["$len"] = frozenset(max(n - 1, 0) for n in self._len_of(st))
         for c in ast.walk(s):
             if isinstance(c, ast.Call) and isinstance(c.func, ast.Attribute) and isinstance(c.func.value, ast.Name) and c.func.value.id == self.stack:
                 ls = self._len_of(st)
